@@ -12,7 +12,7 @@ from sphinx import addnodes
 from sphinx.domains.math import MathDomain
 from sphinx.environment import BuildEnvironment
 from sphinx.ext.intersphinx import InventoryAdapter
-from sphinx.util import logging
+from sphinx.util import docname_join, logging
 
 from myst_parser import inventory
 from myst_parser.mdit_to_docutils.base import DocutilsRenderer, token_line
@@ -175,6 +175,18 @@ class SphinxRenderer(DocutilsRenderer):
                     refdomain=None, reftarget=path_dest, **kwargs
                 )
                 classes = ["xref", "download", "myst"]
+        elif path_id is not None and (
+            docname_join(self.sphinx_env.docname, path_dest)
+            in self.sphinx_env.found_docs
+        ):
+            # a document referenced without its extension, with a heading anchor
+            wrap_node = addnodes.pending_xref(
+                refdomain="doc",
+                reftarget=docname_join(self.sphinx_env.docname, path_dest),
+                reftargetid=path_id,
+                **kwargs,
+            )
+            classes = ["xref", "myst"]
         else:
             wrap_node = addnodes.pending_xref(
                 refdomain=None, reftarget=destination, **kwargs
